@@ -364,7 +364,11 @@ def _run(prop, files, extra):
     ctx = Ctx(prop, corpus, tier='thorough', quiet=True, use_known=True)
     ctx.corpus.repo = None
     mod = importlib.import_module(f'sa.rules.{prop.lower()}')
-    mod.run(ctx)
+    try:
+        mod.run(ctx)
+    except AnalysisError:
+        if not ctx.failures:
+            raise
     return ctx
 
 
